@@ -71,6 +71,20 @@ def mechanism(sc, va, vb, pa, pb, d):
         propagated = vc.final[0] == "raise" and vc.final[1] is vc.rec.objs.get("fault")
         if contained and propagated:
             return "attempt-hook-error-treated-as-attempt-failure-by-execute"
+        # the same wart on the abort path, the other way round: execute() calls on_attempt_end for the aborted attempt (outside its
+        # try block) and the hook's error escapes from execute(); call() does not call the hook there and raises AbortRetryError
+        ve_fault = ve.final[0] == "raise" and ve.final[1] is ve.rec.objs.get("fault")
+        vc_abort = vc.final[0] == "raise" and type(vc.final[1]).__name__ == "AbortRetryError"
+        if ve_fault and vc_abort and any(e_[0] == "metric" and e_[1] == "aborted" for e_ in ve.trace):
+            return "attempt-hook-error-treated-as-attempt-failure-by-execute"
+        # ... and in the books: both deliver the hook's error, but call() settles the breaker with a cancel (its finally net) while
+        # execute() classifies the hook's error and records a failure
+        if ve_fault and propagated and kinds and kinds <= {"br.cancel", "br.failure", "metric", "log"}:
+            names = {e[0] if e[0] not in ("metric", "log") else e[1] for e in (x, y) if e is not None}
+            if names <= {"br.cancel", "br.failure", "circuit_opened"}:
+                return "attempt-hook-error-treated-as-attempt-failure-by-execute"
+    if x is None and y is None:
+        return "final-differs"
     if x is None or y is None:
         return "trace-length-differs:" + (x or y)[0]
     if x[0] != y[0]:
@@ -97,7 +111,9 @@ def compare(ctx, sc, ents, stats):
             if d is None and fa == fb:
                 continue
             if d is None:
-                key = "final-differs"
+                key = mechanism(sc, va, vb, pa, pb, None)
+                if key.startswith(("trace-length-differs", "event-")):
+                    key = "final-differs"
                 msg = f"finals {fa} vs {fb}"
             else:
                 key = mechanism(sc, va, vb, pa, pb, d)
